@@ -285,6 +285,22 @@ O(id='asn_check_constraints.errbuf', props=['C08'], kind='width', entry='h_check
 O(id='BIT_STRING_constraint', props=['C08'], kind='width', entry='h_BIT_STRING_constraint', functions=['BIT_STRING_constraint'], proves=['BIT_STRING_constraint'],
   unwind=4, bound='every (size, bits_unused, buf) combination (loop-free)', min_props=10, harness='harness/h_bitstring_constraint.c', units=[SK + 'BIT_STRING.c'])
 
+# ---------------------------------------------------------------- C09: constraint interval algebra
+CR = dict(harness='harness/h_crange.c', units=['libasn1fix/asn1fix_crange.c'], incdirs=['libasn1fix', 'libasn1parser', 'libasn1common', 'libasn1print', 'libasn1compiler'])
+O(id='_edge_compare', props=['C09'], kind='width', entry='h_edge_compare', functions=['_edge_compare'], proves=['_edge_compare'], unwind=2,
+  bound='all triples of edges, 128-bit values (loop-free)', min_props=5, **CR)
+O(id='_range_overlap', props=['C09'], kind='width', entry='h_range_overlap', functions=['_range_overlap'], proves=['_range_overlap'], unwind=2,
+  bound='all pairs of well-formed simple ranges, 128-bit values (loop-free)', min_props=5, **CR)
+O(id='_range_split', props=['C09'], kind='width', entry='h_range_split', functions=['_range_split', '_range_new', '_range_insert', '_range_partial_sort_elements'],
+  proves=['_range_split'], stubs=['stubs/qsort3.c'], unwind=6, cbmc=['--no-malloc-may-fail', '--memory-leak-check'],
+  bound='all pairs of well-formed simple ranges with rb inside the intmax_t window, 128-bit values; allocation succeeds (the function asserts on failure)',
+  trusted=['qsort: stub (stubs/qsort3.c)'], min_props=30, timeout=900, **CR)
+
+O(id='_range_intersection.simple', props=['C09'], kind='bounded', entry='h_range_intersection',
+  functions=['_range_intersection', '_range_split', '_range_remove_element', '_range_insert'], stubs=['stubs/qsort3.c'], unwind=8,
+  cbmc=['--no-malloc-may-fail', '--memory-leak-check'], bound='two simple (one-interval) operands, 128-bit values, PER rules (is_oer=0, no strict edge check)',
+  trusted=['qsort: stub (stubs/qsort3.c)'], min_props=30, timeout=1500, tier='experimental', **CR)
+
 UNVERIFIED = {
  'C07': ['asn_encode_to_buffer / asn_encode_to_new_buffer / uper_encode_to_buffer / uper_encode_to_new_buffer with a UPER type encoder: obligations exist (tier experimental) but do not discharge (symbolic-length memcpy of the 32-octet bit scratch space runs out of memory); asn_encode with UPER is covered',
          'every constructed / generated type encoder is assumed to follow the operation-slot convention enumerated by the stub encoder',
